@@ -52,10 +52,13 @@ def load_source(src, workdir):
 
 
 def drive_random(cs, scn, rec, seed, nsteps, modes, genstep_frac=0.3, reset_frac=0.01, bias=0.7, lockstep=False,
-                 extras=True, decode_limit=400, readable=True):
+                 extras=True, decode_limit=400, readable=True, record_draws=False):
     """seeded random / discovery-biased driver over real step() calls; with lockstep every environment takes
     the same abstract action with the same draw (one group per step)"""
     rng = random.Random(seed)
+    if record_draws:
+        import numpy as _np
+        _np.random.seed(seed % (2 ** 31))
     probs = pyref.all_probs(cs)
     n = pyref.n_actions(cs)
     ph = pyref.per_host(cs)
@@ -92,6 +95,10 @@ def drive_random(cs, scn, rec, seed, nsteps, modes, genstep_frac=0.3, reset_frac
         u = pyref.safe_random_draw(rng, probs)
         if rng.random() < 0.6:
             u = u * 0.3          # lean towards the lucky side so that deep states are reached
+        if record_draws:
+            # the draw is NOT scripted: numpy's own generator draws and the value is only recorded (a draw closer
+            # than 1e-5 to a probability of the scenario would be dropped: none in 10^5 steps is the expectation)
+            u = None
         counter += 1
         vec = encode_param(cs, k)
 
@@ -168,6 +175,16 @@ def run_job(job):
             corpus.run_decoys(cs)
         trace = os.path.join(wd, "trace.ndjson")
         rec = Recorder(trace, len(cs["hosts"]))
+        if job.get("spec_only"):
+            # design level only: exhaustive TLC run of NASimEnv (all clauses on every transition), no replay
+            wd2 = os.path.join(wd, "explore")
+            os.makedirs(wd2)
+            r = replay.explore(cs, wd2, dump=False, workers=job.get("workers", 8), timeout=job.get("timeout", 7200))
+            res["states"], res["transitions"] = r.distinct, r.generated
+            if r.errors or not r.completed:
+                res["machinery"] = "NASimEnv exploration failed: " + r.tail(30)
+            rec.close()
+            return res
         if job.get("exhaustive"):
             wd2 = os.path.join(wd, "explore")
             os.makedirs(wd2)
@@ -183,14 +200,16 @@ def run_job(job):
                 return res
             info = replay.replay(cs, scn, graph, rec, modes=job.get("modes", replay.DEFAULT_MODES),
                                  foreign=job.get("foreign", True), max_states=job.get("max_states"),
-                                 extras=job.get("extras", True), readable=not corpus.names_clash(cs))
+                                 extras=job.get("extras", True), readable=not corpus.names_clash(cs),
+                         record_draws=job.get("record_draws", False))
             res["edges_replayed"] = info["edges"]
             res["graph_states"] = info["states"]
             res["spec_gates"] = {"%s/%s/%s" % k: v for k, v in info["gates"].items()}
         if job.get("random_steps"):
             drive_random(cs, scn, rec, job.get("seed", 0), job["random_steps"],
                          job.get("modes", replay.DEFAULT_MODES), lockstep=job.get("lockstep", False),
-                         extras=job.get("extras", True), readable=not corpus.names_clash(cs))
+                         extras=job.get("extras", True), readable=not corpus.names_clash(cs),
+                         record_draws=job.get("record_draws", False))
         rec.close()
         res["counts"] = dict(rec.counts)
         res["events"] = rec.i
